@@ -394,9 +394,9 @@ def compare_step(ck, cfgname, hist, src, dst, exp_res, got_res, exp_emit, proj):
         if var in proj and proj[var] != dst[var]:
             bad.append((what, {"expected": dst[var], "got": proj[var]}))
     for what, det in bad:
-        ck.observe(f"G01.{what}", {"config": cfgname, "call": name, "aspect": what,
-                                   "status_before": src["st"], "result_expected": list(exp_res)},
-                   {"history": hist[-12:], "state_before": src, "expected_state": dst, **det})
+        ck.observe(f"G01.{what}", {"config": cfgname, "call": name, "aspect": what, "spec_result": exp_res[0]},
+                   {"history": hist[-12:], "state_before": src, "expected_result": list(exp_res),
+                    "expected_state": dst, **det})
     return bool(bad)
 
 
